@@ -22,6 +22,11 @@ pub open spec fn wire_lookup(run: u32, b: BoardId, ch: Adc32ChannelId) -> Result
     } }
 }
 
+// `p * 16` respelled as `p << 4` is the same index (the solver does not relate them by itself)
+pub broadcast proof fn lemma_spell_shl4(p: usize) requires p < 0x1000_0000 ensures #[trigger] (p << 4usize) == p * 16 {
+    assert(p < 0x1000_0000 ==> (p << 4usize) == p * 16) by (bit_vector);
+}
+
 // the reflexive conversion used by `?` when no error conversion takes place (core: `impl<T> From<T> for T { fn from(t) -> T { t } }`)
 pub assume_specification<T> [ <T as core::convert::From<T>>::from ] (t: T) -> (r: T)
     ensures r == t;
